@@ -551,7 +551,11 @@ class FileSession(Session):
         try:
             with open(path, 'rb') as f:
                 return pickle.load(f)
-        except (IOError, EOFError):
+        except Exception:
+            # A missing file, or one left truncated or otherwise unreadable
+            # by a crash during _save, is "no session", not an error.
+            # Unpickling damaged data raises UnpicklingError and, depending
+            # on the bytes, other exceptions (see the pickle docs).
             e = sys.exc_info()[1]
             if self.debug:
                 cherrypy.log('Error loading the session pickle: %s' %
